@@ -55,7 +55,12 @@ META = {
                  'nested doInTransaction (binding already a Transaction) is outside the model',
                  'the pool is observed through len(connection._pool) relative to a warmed-up baseline'],
     'assumptions': ['the calling thread\'s binding is a database connection (not a URI string, not already a transaction)',
-                    'exhaustive = the full product for bodies of <= 3 steps; longer bodies are enumerated with the hub configuration rotating'],
+                    'exhaustive = the full product for bodies of <= 3 steps; longer bodies are enumerated with the hub configuration rotating',
+                    'C08_translated_doInTransaction_eq_model: the calls into other objects are interpreter parameters (Model/HubX.lean '
+                    'header): transaction() = Transaction.__init__ (text checked by the translator), func(*args, **kw) = runBody through '
+                    'the hub as it is at that moment, commit(close=True) / rollback() as summarised there (the translated '
+                    'Transaction.commit/rollback/_makeObsolete are tied to Model/Tx.lean by C07_translated_* and '
+                    'C08_translated_commit_close_releases / C08_translated_rollback_releases)'],
     'exhaustive': True,
 }
 
